@@ -400,7 +400,7 @@ func verifStartTLSClose(prop string) {
 func verif_C20_starttls_close_stub() { verifStartTLSClose("C20") }
 
 // verif_C20_stop_vs_accept: Shutdown (or Close) starts in another goroutine
-// while Serve is still accepting - the listener hands out 0..1 (quick) / 0..2 (thorough) connections
+// while Serve is still accepting - the listener hands out 0..1 connections
 // (peer gone at once, or held open until released) before it goes idle. Under
 // the happens-before monitor, which also knows sync.WaitGroup's rule that an
 // Add from zero must happen before Wait: no race, no deadlock, Serve returns,
@@ -409,7 +409,7 @@ func verif_C20_starttls_close_stub() { verifStartTLSClose("C20") }
 func verif_C20_stop_vs_accept() {
 	verifPreemptBound(verifBound(1, 2))
 	verifSchedForkBound(verifBound(3, 4))
-	n := verifChoice(verifBound(2, 3))
+	n := verifChoice(2)
 	l := &vlistener{closed: make(chan struct{})}
 	for i := 0; i < n; i++ {
 		l.script = append(l.script, []int{3, 2}[verifChoice(2)])
